@@ -13,6 +13,19 @@ def build_targets():
     stamp = os.path.join(d, "fz.ok")
     if os.path.exists(stamp) and os.path.getmtime(stamp) >= os.path.getmtime(src):
         return d
+    import fcntl
+    lock = open(os.path.join(d, "fz.lock"), "w")
+    fcntl.flock(lock, fcntl.LOCK_EX)         # several shard workers may arrive here at once: one builds, the others wait and find the stamp
+    try:
+        if os.path.exists(stamp) and os.path.getmtime(stamp) >= os.path.getmtime(src):
+            return d
+        return _build_locked(d, src, stamp)
+    finally:
+        fcntl.flock(lock, fcntl.LOCK_UN)
+        lock.close()
+
+
+def _build_locked(d, src, stamp):
     procs = []
     for t in TARGETS:
         cmd = ["clang", "-O1", "-g", "-w", "-fsanitize=fuzzer,address", "-fno-omit-frame-pointer", "-DFZ_" + t, "-I%s/include" % build.REPO,
